@@ -502,6 +502,16 @@ theorem keys_preserved (t : Node) (t' : Node) (hk : KeysOK t)
   · exact specSet_nodup _ _ names v hk hv h
   · exact specRemove_nodup _ _ names prune hk h
 
+/-! ## What the text shows
+
+`renderedTree` reads the items `AttributeSet.rebuild` renders (`attrpath_order` when non-empty, `values`
+otherwise). Where it equals `denote`, the refinement theorems above speak about the text as well. -/
+
+/-- For sets that do not use `attrpath_order` (built through the API) and whose attrpath families are
+    non-empty and hold only bindings, the rendered attributes are exactly what `denote` reads. -/
+theorem rendered_eq_denote_values (n : Node) (h : valuesMode n = true) : renderedTree n = denote n :=
+  (rendered_eq_denote_aux n h).1
+
 /-! ## Counterexamples (open known findings) -/
 
 private def A (s : String) : Node := .atom s.toList
